@@ -393,8 +393,10 @@ def _snapshots(ctx: Ctx, model, F):
                             continue
                         ictx = cx.get(id(f.node), {"api"})
                         cons = f"{f.qualname}:iterate({tbl})"
-                        other = {m for m in mctx if ictx - {m} or len(mctx) > 1} and \
-                            (len(mctx | ictx) > 1)
+                        # "api" stands for any number of user threads: an API function that
+                        # iterates and an API function that resizes run concurrently
+                        other = ({m for m in mctx if ictx - {m} or len(mctx) > 1} and
+                                 (len(mctx | ictx) > 1)) or ("api" in mctx and "api" in ictx)
                         ctx.inst(cons, sample={"where": f.loc(it), "iter": ast.unparse(it),
                                                "snapshot": not live,
                                                "iter_contexts": sorted(ictx),
